@@ -84,7 +84,7 @@ def main(tier):
     rnd = random.Random(seed())
     docs = rel.valid_docs(chk, tier, [(600, 4), (400, 6)], [(5000, 3), (5000, 5), (3000, 7)])
     # type graphs with allOf chains and references (denser than in whole-API documents)
-    docs += rel.valid_docs(chk, tier, [(1500, 5)], [(20000, 5), (10000, 6)], features='{"type","enum","allof","nested"}')
+    docs += rel.valid_docs(chk, tier, [(1500, 5)], [(20000, 5), (10000, 6)], features='{"type","enum","allof","nested","skey"}')
     cases, meta = [], {}
     for n, m in enumerate(docs):
         d = m["doc"]
